@@ -138,7 +138,7 @@ Fixpoint run_hist (c : cache) (h : list request) : list Z :=
                   | Some e => if skey_eqb (e_scc e) (skey_of q) then 2 else 3
                   | None => 1
                   end in
-      match respond stamp_codec c q with
+      match respond stamp_codec wkey_of c q with
       | None => [0]
       | Some (c', r) =>
           let eff := effective r in
